@@ -923,6 +923,9 @@ def list_program(rng, max_points=1 << 12):
         if r.random() < 0.5:
             prog["classes"]["E"]["blocks"].append({"n": "ec", "st": [["e", ["b", r.choice(["<", "<=", "!="]), ["f", ["x"]], ["f", ["y"]]]]]})
         objlist = {"n": "ol", "k": "list", "ek": "obj", "c": "E", "r": True, "sz": r.choice([1, 2])}
+        if r.random() < 0.45:
+            # random-size list of objects, populated by the user: its size ranges over 0..number of objects
+            objlist.update(rsz=True, sz=2, szmax=2)
         fields.append(objlist)
     r.shuffle(fields)
     prog["classes"]["T"] = {"base": None, "fields": fields, "blocks": []}
@@ -977,7 +980,15 @@ def list_program(rng, max_points=1 << 12):
             st.append(["uvec", [["l"], ["m"]]])
         elif second is not None:
             st.append(["fe", ["m"], "both", [["e", ["b", r.choice(["<=", "!="]), ["it"], ["el", ["l"], ["idx"]]]]]])
-    if objlist is not None:
+    if objlist is not None and objlist.get("rsz"):
+        c = r.random()
+        if c < 0.5:
+            st.append(["e", ["in", ["sz", ["ol"]], [["c", v] for v in sorted(set(r.randint(0, 2) for _ in range(2)))]]])
+        else:
+            st.append(["e", ["b", r.choice([">", ">=", "<="]), ["sz", ["ol"]], ["c", r.randint(0, 2)]]])
+        st.append(["fe", ["ol"], r.choice(["it", "both"]),
+                   [["e", ["b", r.choice(["<", "!=", "=="]), ["ita", "x"], ["c", r.randint(0, 3)]]]]])
+    elif objlist is not None:
         c = r.random()
         if c < 0.5:
             st.append(["fe", ["ol"], "it", [["e", ["b", r.choice(["<", "!=", ">="]), ["ita", "x"], ["ita", "y"]]]]])
